@@ -28,6 +28,12 @@ for flag in (False, True):
         CLAUSES.append(inv({"classes/app/other.yml": cls("app.other"), "classes/app/sub/x.yml": cls("app.sub.x"), "classes/a.yml": cls("a", ["app"]),
                             "nodes/n.yml": cls("n", ["a", "app.other"]), "nodes/m.yml": cls("m", ["app.other", "app", "app.nope"]),
                             "nodes/o.yml": cls("o", ["app.sub"])}, ignore_class_notfound=flag, **kw))
+# ignoring on, selective patterns, a missing class none of them matches, and Python-reclass options that reclass-rs ignores
+for extra in ([["ignore_class_notfound_warning", False]], [["ignore_class_notfound_warning", True]], [["ignore_class_notfound_warning", False], ["allow_none_override", True]]):
+    for pats in (["^other"], ["^missing"], [".*"]):
+        c_ = inv({"classes/a.yml": cls("a", ["missing.one"]), "classes/b.yml": cls("b"), "nodes/n.yml": cls("n", ["a", "b"]), "nodes/m.yml": cls("m", ["gone", "b"])})
+        c_["config"] = {"file_options": [["ignore_class_notfound", True], ["ignore_class_notfound_regexp", pats]] + extra, "ignore_class_notfound": True, "patterns": pats}
+        CLAUSES.append(c_)
 # an existing class whose name matches the pattern is never skipped
 CLAUSES.append(inv({"classes/missing/one.yml": cls("missing.one"), "nodes/n.yml": cls("n", ["missing.one"])},
                    ignore_class_notfound=True, patterns=["^missing"]))
@@ -111,6 +117,11 @@ class C16(InvProp):
                 opts.append(["compose_node_name", c3["config"].get("compose_node_name", False)])
                 if r.chance(1, 2):
                     opts.append(["unknown_option", "x"])
+                for _ in range(r.range(0, 3)):
+                    # options of Python reclass that reclass-rs does not implement: accepted and ignored, whatever their value
+                    opts.append(r.choice([["ignore_class_notfound_warning", False], ["ignore_class_notfound_warning", True], ["allow_none_override", True],
+                                          ["ignore_overwritten_missing_references", False], ["allow_scalar_over_dict", True], ["pretty_print", True],
+                                          ["output", "json"], ["storage_type", "yaml_fs"], ["ignore_class_regexp", [".*"]], ["group_errors", False]]))
                 c3["config"]["file_options"] = r.shuffle(opts)
                 c3["fam"] = "config_file"
                 yield c3
